@@ -10,6 +10,7 @@ META = {
     "level": "Decides the structural clauses: the text of a PackageList is stored once and rendered as is (parse never normalises it); every parsed line keeps its content and its line ending as two complementary slices of the original line, lines coming from splitlines(keepends=True); expand() re-emits entry.raw + entry.eol in order, rewrites an entry only when its expanded keywords differ from the written ones, passes blank/comment lines through untouched and returns the very same list when nothing changed; with_keywords leaves entries without a package spec alone and keeps the comment slice and the leading spec slice of the original raw text; build() writes `spec keyword…` lines that _parse splits into the same fields. Does NOT decide the exact spacing produced inside a rewritten line (that is a value-level property of the slices in with_keywords).",
     "note": "first written as not-applicable (DESIGN §6); the storage/partition/guard clauses turned out to be expressible without matching source text",
 }
+META["technique"] += "; " + 'generic pack G on the anchored files (optional-flag shift, closures outliving a loop iteration, single-pass iterables consumed twice, %-templates built from data, in-place writes to class-level / memoised objects, generators mutating what they yielded, memo keys that are projections)'
 MOD = "pkgcore.bugzilla.pkglist"
 
 
